@@ -24,8 +24,9 @@
    Each statement for the reference interpretation, for the optimised interpretation with the I64
    exclusion (parse true true, unconditional), and for the parser the correspondence check runs
    (parse_opt) under [fast_path_excludes_i64 = true] -- the transfer is C03_fast_eq_ref_fixed.
-   For the code as it is today (fx = false) the optimised half holds wherever C03_fast_eq_ref_no_i64
-   applies to D and to the prefix; not stated here (finding B is the reason).
+   For the code as it is today (fx = false, finding B) the optimised half is stated on the class of
+   C03_fast_eq_ref_no_i64, which is proved closed under taking prefixes (C19_bin_no_i64_prefix_closed);
+   outside that class the optimised parser differs from the reference one on WHOLE inputs already.
 
    The "one byte after": `while let Some((data, token_id)) = parse_next_id_opt(data)` leaves the loop
    as soon as fewer than two bytes are left, so a single trailing byte is ignored, on whole inputs
@@ -161,6 +162,50 @@ Theorem C19_bin_cut_in_payload_code : fast_path_excludes_i64 = true ->
 Proof. intro E. exact (trunc_gen_in_payload parse_opt (obs_code_ref E)). Qed.
 Print Assumptions C19_bin_cut_in_payload_code.
 
+(* ------------------------------------------------------------------ the code as it is (fx = false) *)
+(* on the class of C03_fast_eq_ref_no_i64 (the I64 id never is the next lexeme in key position or as
+   first element of a container along the run on D); the class is closed under taking prefixes, so
+   the hypothesis is on the whole input only *)
+Theorem C19_bin_no_i64_prefix_closed : forall D k,
+  i64_never_in_key_position D -> i64_never_in_key_position (firstn k D).
+Proof. exact i64_never_firstn. Qed.
+Print Assumptions C19_bin_no_i64_prefix_closed.
+
+Theorem C19_bin_trunc_asis : forall D F k, i64_never_in_key_position D -> k <= length D -> parse false true D = Ok F ->
+  (exists e, parse false true (firstn k D) = Err e) \/
+  (exists s, runs (init D) s /\ top s /\ pos D s <= k <= pos D s + 1 /\
+             parse false true (firstn k D) = Ok (s_tape s) /\ exists rest, F = s_tape s ++ rest).
+Proof. exact (trunc_on (parse false true) i64_never_in_key_position obs_asis_ref i64_never_firstn). Qed.
+Print Assumptions C19_bin_trunc_asis.
+
+Theorem C19_bin_prefix_tape_asis : forall D F k t, i64_never_in_key_position D ->
+  parse false true D = Ok F -> parse false true (firstn k D) = Ok t -> exists rest, F = t ++ rest.
+Proof. exact (trunc_on_plain (parse false true) i64_never_in_key_position obs_asis_ref i64_never_firstn). Qed.
+Print Assumptions C19_bin_prefix_tape_asis.
+
+Theorem C19_bin_cut_not_top_asis : forall D k s, i64_never_in_key_position D -> k <= length D -> runs (init D) s ->
+  pos D s <= k <= pos D s + 1 -> ~ top s -> exists e, parse false true (firstn k D) = Err e.
+Proof. exact (trunc_on_not_top (parse false true) i64_never_in_key_position obs_asis_ref i64_never_firstn). Qed.
+Print Assumptions C19_bin_cut_not_top_asis.
+
+Theorem C19_bin_cut_in_payload_asis : forall D k s s2, i64_never_in_key_position D -> runs (init D) s ->
+  iter false false s = Continue s2 -> pos D s + 2 <= k < pos D s2 -> exists e, parse false true (firstn k D) = Err e.
+Proof. exact (trunc_on_in_payload (parse false true) i64_never_in_key_position obs_asis_ref i64_never_firstn). Qed.
+Print Assumptions C19_bin_cut_in_payload_asis.
+
+(* parse_opt, whatever the generated flag fast_path_excludes_i64 says (false today) *)
+Theorem C19_bin_trunc_code_no_i64 : forall D F k, i64_never_in_key_position D -> k <= length D -> parse_opt D = Ok F ->
+  (exists e, parse_opt (firstn k D) = Err e) \/
+  (exists s, runs (init D) s /\ top s /\ pos D s <= k <= pos D s + 1 /\
+             parse_opt (firstn k D) = Ok (s_tape s) /\ exists rest, F = s_tape s ++ rest).
+Proof. exact (trunc_on parse_opt i64_never_in_key_position obs_code_on i64_never_firstn). Qed.
+Print Assumptions C19_bin_trunc_code_no_i64.
+
+Theorem C19_bin_prefix_tape_code_no_i64 : forall D F k t, i64_never_in_key_position D ->
+  parse_opt D = Ok F -> parse_opt (firstn k D) = Ok t -> exists rest, F = t ++ rest.
+Proof. exact (trunc_on_plain parse_opt i64_never_in_key_position obs_code_on i64_never_firstn). Qed.
+Print Assumptions C19_bin_prefix_tape_code_no_i64.
+
 (* ------------------------------------------------------------------ non-vacuity *)
 (* `0x2d82 = i32 89   0x2d83 = { i32 1 i32 2 }`: 10 + 20 bytes *)
 Definition C19_bin_doc : bytes :=
@@ -215,3 +260,7 @@ Qed.
 (* the single ignored trailing byte, on a whole input *)
 Example C19_bin_stray_byte : parse_ref [7]%N = Ok [] /\ parse_opt [7]%N = Ok [].
 Proof. split; vm_compute; reflexivity. Qed.
+
+(* the example lies in the class of the as-is theorems *)
+Example C19_bin_doc_no_i64 : i64_never_in_key_position C19_bin_doc.
+Proof. intros s H. run_star H. Qed.
